@@ -44,6 +44,65 @@ pub const ENUM_PAIRS: &[(&str, u64)] = &[
 pub const ENUM_QUICK: usize = 8;
 pub const ENUM_SPAN: u64 = 3072;
 
+/// "...that can mislead a later one", end to end and for every cut point: positions in which
+/// the side to move has a forced mate in two (by the rules; taken from the C12 corpus), searched
+/// to depth 4 with node budget N for every N, and then searched again to depth 4 without a
+/// budget. The later search completes a 4-ply iteration, so - whatever completed subtrees the
+/// cache holds - it has to play a move that keeps the forced mate; it does after an uninterrupted
+/// first search and from an empty cache.
+pub const MATE_SPAN: u64 = 3072;
+
+pub fn mate_pairs(thorough: bool) -> usize {
+    if thorough {
+        16
+    } else {
+        5
+    }
+}
+
+fn mate_position(k: usize) -> Pos {
+    use std::sync::OnceLock;
+    static POS: OnceLock<Vec<Pos>> = OnceLock::new();
+    POS.get_or_init(|| {
+        let mut out: Vec<Pos> = vec![];
+        let mut rng = Rng::new(0xC13_0A7E);
+        while out.len() < 16 {
+            let Some(p) = super::c12::candidate(&mut rng) else { continue };
+            if p.piece_count() > 16 || p.legal_moves().is_empty() {
+                continue;
+            }
+            let c = super::c12::classify(&p);
+            if c.m2 && !c.m1 && !out.iter().any(|q| q.to_fen() == p.to_fen()) {
+                out.push(p);
+            }
+        }
+        out
+    })[k]
+        .clone()
+}
+
+/// Does `m` keep a forced mate in two (every reply can be answered by checkmate)?
+fn keeps_mate_in_two(pos: &Pos, m: super::super::refmodel::Mv) -> bool {
+    use super::super::refmodel::Solver;
+    let p2 = pos.make(m);
+    let replies = p2.legal_moves();
+    if replies.is_empty() {
+        return p2.in_check(p2.white);
+    }
+    replies.iter().all(|&r| !Solver::mating_moves(&p2.make(r)).is_empty())
+}
+
+fn mate_case(index: u64, thorough: bool) -> Option<(usize, u64)> {
+    let pairs = if thorough { ENUM_PAIRS.len() } else { ENUM_QUICK };
+    let base = pairs as u64 * ENUM_SPAN;
+    if index >= base && index < base + mate_pairs(thorough) as u64 * MATE_SPAN {
+        let i = index - base;
+        Some(((i / MATE_SPAN) as usize, i % MATE_SPAN + 1))
+    } else {
+        None
+    }
+}
+
 fn enum_case(index: u64, thorough: bool) -> Option<(usize, u64)> {
     let pairs = if thorough { ENUM_PAIRS.len() } else { ENUM_QUICK };
     let total = pairs as u64 * ENUM_SPAN;
@@ -78,6 +137,26 @@ pub fn generate(cx: &super::GenCtx) -> Vec<Plan> {
                 .set("enum_nodes", n);
             return vec![plan];
         }
+    }
+    if let Some((k, n)) = mate_case(cx.index, cx.thorough) {
+        let pos = mate_position(k);
+        s.push(Action::send(format!("position fen {}", pos.to_fen())));
+        s.push(Action::send(format!("go depth 4 nodes {n}")));
+        s.push(Action::WaitBestmove);
+        s.push(Action::WaitIdle);
+        for d in [3, 4] {
+            s.push(Action::send(format!("go depth {d}")));
+            s.push(Action::WaitBestmove);
+            s.push(Action::WaitIdle);
+        }
+        s.push(Action::send("quit"));
+        plan.script = s;
+        plan.cost_ns = 1000;
+        plan.policy = Some(super::super::kernel::Policy::Quiet);
+        plan.params = super::super::json::J::obj()
+            .set("mate_after_cut", k)
+            .set("enum_nodes", n);
+        return vec![plan];
     }
     // sampled interruptions
     let (cmd, dense) = if rng.chance(1, 3) {
@@ -256,6 +335,28 @@ pub fn check(plans: &[Plan], recs: &[RunRec]) -> Outcome {
             ));
         } else if g.thread_ended {
             out.stats.inc("interrupted_searches_clean");
+        }
+    }
+    for later in views.iter().skip(1).filter(|_| plan.params.get("mate_after_cut").is_some()) {
+        let first = &views[0];
+        let cut = first.go.tid.is_some_and(|t| rec.threads[t as usize].first_abort.is_some());
+        if let (Some(pos), Some(b)) = (&later.pos, later.go.bestmoves.first()) {
+            let mv = b.text.split_whitespace().nth(1).unwrap_or("");
+            out.stats.inc(if cut { "reach.later_search_after_cut" } else { "later_search_after_completed_search" });
+            let ok = pos.find_uci(mv).is_some_and(|m| keeps_mate_in_two(pos, m));
+            if !ok && later.go.thread_ended {
+                out.violations.push(Violation::new(
+                    if cut { "later_search_misled" } else { "later_search_wrong_without_cut" },
+                    format!(
+                        "in {} (forced mate in two by the rules) {:?} was {}, and the following {:?} then answered {:?}, which gives the forced mate away",
+                        pos.to_fen(),
+                        first.text,
+                        if cut { "cut short by its node budget" } else { "completed" },
+                        later.text,
+                        b.text
+                    ),
+                ));
+            }
         }
     }
     if rec.end == EndReason::Deadlock {
